@@ -20,7 +20,7 @@ Beats(b) == LET nb == (Len(b) + 3) \div 4 IN
             [k \in 1..nb |-> [n |-> IF k < nb THEN 4 ELSE Len(b) - 4 * (nb - 1), first |-> k = 1, last |-> k = nb]]
 DpOf(s, b) == [e |-> "dp", seq |-> s, len |-> Len(b), epn |-> cfg.ep, bytes |-> b, zlp |-> b = <<>>, beats |-> Beats(b)]
 AckOf(ep, s, n, r) == [e |-> "ack", ep |-> ep, seq |-> s, nump |-> n, rty |-> r]
-TpOf(k) == [e |-> "tp", kind |-> k, want |-> k, epn |-> cfg.ep, addr |-> cfg.addr]
+TpOf(k, ph) == [e |-> "tp", kind |-> k, want |-> k, phase |-> ph, epn |-> cfg.ep, addr |-> cfg.addr]
 
 Word      == \E dt \in Dts, la \in BOOLEAN : \E n \in (IF la THEN Ns ELSE {4}) : n > 0 /\
                 Do([e |-> "w", bytes |-> WordBytes(n), last |-> la], dt)
@@ -30,14 +30,15 @@ HostRetry == \E dt \in Dts : infl # NoPkt /\ Do(AckOf(cfg.ep, infl.seq, 1, 1), d
 HostOther == \E dt \in Dts : cfg.ep = 1 /\ Do(AckOf(cfg.ep + 1, seq, 1, 0), dt)
 DevData   == \E dt \in Dts : req.on /\ (req.retry \/ q # <<>>) /\
                 Do(IF req.retry THEN DpOf(infl.seq, infl.b) ELSE DpOf(seq, q[1].b), dt)
-DevNrdy   == \E dt \in Dts : req.on /\ Do(TpOf("nrdy"), dt)
-DevErdy   == \E dt \in Dts : flow = "nrdy" /\ Do(TpOf("erdy"), dt)
+DevNrdy   == \E dt \in Dts : req.on /\ Do(TpOf("nrdy", "both"), dt)
+DevErdy   == \E dt \in Dts, ph \in {"both", "request"} : flow = "nrdy" /\ Do(TpOf("erdy", ph), dt)
+DevErdyOut == \E dt \in Dts : erdyPend /\ Do(TpOf("erdy", "emit"), dt)
 
-Next == Word \/ HostPoll \/ HostAccept \/ HostRetry \/ HostOther \/ DevData \/ DevNrdy \/ DevErdy
+Next == Word \/ HostPoll \/ HostAccept \/ HostRetry \/ HostOther \/ DevData \/ DevNrdy \/ DevErdy \/ DevErdyOut
 Spec == InitWith(MCCfg) /\ nack = 0 /\ [][Next]_mvars
 
 BoundedRun == Len(accBytes) <= MaxBytes /\ nack <= MaxAcks
-CoreView == <<cur, q, seq, infl, req, flow, accBytes, ackBytes, accEnds, ackEnds, nack>>
+CoreView == <<cur, q, seq, infl, req, flow, erdyPend, accBytes, ackBytes, accEnds, ackEnds, nack>>
 
 \* the device never has to answer two things at once, and owes an ERDY only while flow controlled
 NoDataWithoutRequest == last_ev.e = "dp" => ~req.on
